@@ -118,6 +118,12 @@ def _build():
     d["gen/unit/entinl"] = ["entity e3 is", "  generic (", "    g_a : integer := 1;", "    g_b : natural := 2);", "  port (", "    a : in    std_logic;", "    b : out   std_logic);", "end entity e3;"]
     d["gen/unit/compinl"] = _arch(["component c3 is", "  generic (", "    g_a : integer := 1);", "  port (", "    a : in    std_logic;", "    b : out   std_logic);", "end component c3;"], ["a <= b;"])
     d["gen/conc/instinl"] = _arch([], ["u4 : entity work.e3", "  generic map (", "    g_a => 1,", "    g_b => 2)", "  port map (", "    a => x,", "    b => y);"])
+    # multi-line lists whose elements carry parentheses of their own
+    d["gen/conc/procml"] = _arch([], ["p_ml : process (clk, data_in(3),", "                rst(1 downto 0)", "    ) is", "begin", "  q <= d;", "end process p_ml;"])
+    d["gen/conc/instml"] = _arch([], ["u5 : entity work.e3", "  port map (", "    a => to_x(b(3), 2),", "    b => c(7 downto 0)", "      );"])
+    d["gen/seq/ifml"] = _arch([], _proc(["if (a(1) = '1' and", "    f(b, c(2)) = 3", "   ) then", "  b <= c;", "end if;"]))
+    d["gen/seq/saml"] = _arch([], _proc(["a <= f(b(1),", "       c(2 downto 0))", "     & d;"]))
+    d["gen/seq/pcallml"] = _arch([], _proc(["do_it(a(1),", "      g(b, 2)", "  );"]))
     single = sorted(d)
     for a in DECL:
         for b in DECL:
